@@ -156,11 +156,15 @@ CHECKS = {
         ref="DESIGN.md section 3 C08"),
     "C18": dict(
         level="model_checking", engine="pysym",
-        technique="symbolic execution of estimate.analyze_accumulator on real layer objects with z3-backed weights and input range (all feasible paths), NRA queries on the exact worst case",
-        text="Only the weight-based estimator clause: for every path of analyze_accumulator (signs of the weights are decided by forking) the solver "
-             "decides that the worst-case pre-activation magnitude over the input box does not exceed the value whose ceil-log2 is returned.",
-        note="The data-type-map clauses need QTools(model), whose graph construction aborts under the pinned Keras 3: not covered.  unfold_model is cut "
-             "to the identity.",
+        technique="symbolic execution of estimate.analyze_accumulator on real layer objects with z3-backed weights and input range (all feasible paths, NRA queries on the "
+                  "exact worst case); LIA queries over the types the real QTools pipeline reports for real models (legacy Keras attributes stubbed)",
+        text="Estimator: for every path of analyze_accumulator (signs of the weights are decided by forking) the solver searches an input in the range whose "
+             "pre-activation exceeds 2^size.  Data-type map: QTools(model) runs on four small real models; per weight layer the solver decides that every sum of "
+             "fan-in products of an input-type value and a weight-type value (times every recorded auto_po2 scale) plus a bias-type value is a value of the "
+             "reported (scale-adjusted) accumulator type.",
+        note="QTools needs six legacy Keras attributes that the pinned Keras 3 lacks (KerasTensor.ref/get_shape, Layer.output_shape/input_shape/get_output_at/"
+             "get_input_at): supplied as environment stubs (vf/legacy_keras.py).  Models are enumerated; values are universally quantified.  Batch-norm fused "
+             "entries and analyze_accumulator_from_sample are not covered.",
         ref="DESIGN.md section 3 C18"),
     "C20": dict(
         level="model_checking", engine="pysym",
